@@ -45,6 +45,19 @@ class _Violation(Exception):
     pass
 
 
+class _CaseHang(BaseException):
+    """The code under test kept one case busy for CASE_CPU_LIMIT_S of CPU time."""
+
+
+CASE_CPU_LIMIT_S = 30.0  # user CPU time of ONE case (they take milliseconds); not wall-clock, so load cannot trip it
+_hang = {"fired": False, "armed": False}
+
+
+def _on_case_cpu_limit(signum: int, frame: Any) -> None:
+    _hang["fired"] = True
+    raise _CaseHang(f"one case used more than {CASE_CPU_LIMIT_S:.0f}s of CPU time")
+
+
 def _load_spec(prop: str) -> Any:
     from harness.props import PROPS
 
@@ -75,6 +88,40 @@ def _quiet() -> None:
 
 def run_one(eng: Any, case: Any, prop: str) -> Any:
     """Execute one case; harness-side exceptions become _Abort."""
+    import signal as _sig
+
+    from harness.core import HarnessError, Outcome
+
+    def hang_outcome() -> Any:
+        # a busy loop in the code under test (blocking waits are the virtual clocks' business): a violation
+        # of whatever the property promises about this history, reported with the case as replay
+        o = Outcome()
+        o.add("hang", "hang:case-exceeded-cpu-limit", f"the case did not finish within {CASE_CPU_LIMIT_S:.0f}s of CPU time "
+              f"(a loop in the code under test that never ends)")
+        o.nontrivial = True
+        o.labels = ["hang"]
+        return o
+
+    if not _hang["armed"]:
+        _sig.signal(_sig.SIGVTALRM, _on_case_cpu_limit)
+        _hang["armed"] = True
+    _hang["fired"] = False
+    # (repeating: the code under test may swallow the first interruption in a catch-all handler)
+    _sig.setitimer(_sig.ITIMER_VIRTUAL, CASE_CPU_LIMIT_S, 2.0)
+    try:
+        out = _run_one_inner(eng, case, prop)
+    except BaseException:
+        if _hang["fired"]:
+            return hang_outcome()
+        raise
+    finally:
+        _sig.setitimer(_sig.ITIMER_VIRTUAL, 0)
+    if _hang["fired"]:
+        return hang_outcome()
+    return out
+
+
+def _run_one_inner(eng: Any, case: Any, prop: str) -> Any:
     from harness.core import HarnessError, Outcome
 
     try:
@@ -137,6 +184,14 @@ def _worker(prop: str, tier: str, w: int, nworkers: int, seed: int, budget: int,
         import signal as _signal
 
         faulthandler.register(_signal.SIGUSR1, all_threads=True)  # kill -USR1 <pid> dumps the stack
+        try:
+            import resource as _resource
+
+            # a loop in the code under test that allocates without end becomes a MemoryError inside the
+            # case (reported like any other exception) instead of taking the machine down
+            _resource.setrlimit(_resource.RLIMIT_AS, (12 << 30, 12 << 30))
+        except Exception:
+            pass
         _quiet()
         import hypothesis
         from hypothesis import HealthCheck, Phase, Verbosity, given, settings
@@ -172,6 +227,7 @@ def _worker(prop: str, tier: str, w: int, nworkers: int, seed: int, budget: int,
 
         # --- finite sub-domains: complete enumeration, sharded -----------------------
         exhaustive_n = 0
+        hung = False
         if hasattr(eng, "exhaustive_cases"):
             best: dict[str, dict[str, Any]] = {}
             for case in eng.exhaustive_cases(prop, tier, w, nworkers):
@@ -185,6 +241,9 @@ def _worker(prop: str, tier: str, w: int, nworkers: int, seed: int, budget: int,
                     cur = best.get(d.bucket)
                     if cur is None or len(canon(case)) < len(canon(cur["case"])):
                         best[d.bucket] = {"bucket": d.bucket, "cls": d.cls, "msg": d.msg, "case": case}
+                if any(d.cls == "hang" for d in out.discs):
+                    hung = True
+                    break  # (process-wide state may be damaged; one hanging cell is enough)
             for b in sorted(best)[:MAX_ROOT_CAUSES]:
                 found.append(best[b])
                 excluded.append(_escape(b))
@@ -195,7 +254,7 @@ def _worker(prop: str, tier: str, w: int, nworkers: int, seed: int, budget: int,
         remaining = budget
         rnd = 0
         timed_out = False
-        while (remaining > 0 and len(found) < MAX_ROOT_CAUSES and not timed_out
+        while (remaining > 0 and len(found) < MAX_ROOT_CAUSES and not timed_out and not hung
                and time.monotonic() - t_start < time_budget):
             st8: dict[str, Any] = {"target": None, "t_fail": None, "seen_fail": {}, "last": None, "gen": 0, "in_case": False}
 
@@ -236,6 +295,11 @@ def _worker(prop: str, tier: str, w: int, nworkers: int, seed: int, budget: int,
                     st8["t_fail"] = time.monotonic()
                 st8["seen_fail"][h] = True
                 st8["last"] = {"bucket": d.bucket, "cls": d.cls, "msg": d.msg, "case": case}
+                if d.cls == "hang":
+                    # the interrupted event loop may have left process-wide state behind: report this case
+                    # unshrunk and let the worker end
+                    st8["hang"] = True
+                    raise _StopShrink()
                 if screen:
                     open(screen, "w").close()
                     raise _StopShrink()
@@ -274,7 +338,7 @@ def _worker(prop: str, tier: str, w: int, nworkers: int, seed: int, budget: int,
                     raise _Abort(f"hypothesis raised {type(exc).__name__}: {exc}") from exc
                 result.setdefault("notes", []).append(f"hypothesis: {type(exc).__name__}: {str(exc)[:300]}")
             remaining -= max(st8["gen"], 1)
-            if st8["last"] is not None and screen:
+            if st8["last"] is not None and (screen or st8.get("hang")):
                 found.append(st8["last"])
                 break
             if st8["last"] is not None:
@@ -436,6 +500,8 @@ def main(argv: list[str] | None = None) -> int:
         p.start()
         procs.append((p, out))
     hard_limit = time_budget * 2.5 + 120
+    if os.environ.get("VERIF_SCREEN"):
+        hard_limit = time_budget + 45  # (tools/automut.py: a mutant that hangs a worker is not worth six minutes)
     results = []
     harness_errors = []
     for p, out in procs:
